@@ -98,8 +98,11 @@ PolyTerm(idx, t) ==
   IN [c |-> Coefs[(d % 5) + 1], e |-> <<(d \div 5) % 3, (d \div 15) % 3, (d \div 45) % 3>>]
 PolyOf(idx) == TLCEval([t \in 1..3 |-> PolyTerm(idx, t - 1)])
 (* evaluation points: halves, away from nothing in particular (polynomials) *)
-Halves == <<-3, -2, -1, 1, 2, 3, 5>>
-PointOf(idx) == TLCEval([i \in 1..NV |-> Rat(Halves[((idx \div Pow(7, i - 1)) % 7) + 1], 2)])
+(* coordinate 0 is included on purpose: together with absent variables it gives
+   partial derivatives that are EXACTLY zero (a helper that skips zero entries
+   leaves stale values in a re-used result matrix) *)
+Halves == <<-3, -2, -1, 0, 1, 2, 3, 5>>
+PointOf(idx) == TLCEval([i \in 1..NV |-> Rat(Halves[((idx \div Pow(8, i - 1)) % 8) + 1], 2)])
 PolyCount == 135 * 135
 (* the map F = (P_idx, P_idx+1, P_idx+2) : R^3 -> R^3 *)
 MapOf(idx) == TLCEval([k \in 1..3 |-> PolyOf(idx + 37 * (k - 1))])
@@ -188,13 +191,30 @@ DSpdRecord(c) ==
                   helper's own activation *)
 PointStates == <<"fresh", "slice_o1", "slice_o2", "computed_o1", "computed_o2", "sameN_o1", "sameN_o2">>
 
+(* ... and over what the RESULT matrix held before the call: after the call it
+   holds exactly the printed table, whatever it held before.
+     fresh   newly allocated (zeros)
+     junk    pre-filled with non-zero values
+     reused  filled by a previous call of the same helper at another point (x2) *)
+MatrixStates == <<"fresh", "junk", "reused">>
+(* result matrices of the integer element types hold the derivatives truncated
+   towards zero (the embedding of a real into an integer type) *)
+Trunc(r) == IF r.n >= 0 THEN r.n \div r.d ELSE -((-r.n) \div r.d)
+NZeros(T) == Cardinality({q \in (1..Len(T)) \X (1..Len(T[1])) : T[q[1]][q[2]].n = 0})
+
 PolyRecord(c) ==
   LET F == MapOf(c.idx)
       x == PointOf(c.idx)
-  IN [k |-> "poly", fam |-> "poly", n |-> NV, idx |-> c.idx, f |-> F, x |-> RV2(x), pstates |-> PointStates,
-      val |-> TLCEval([k \in 1..3 |-> R2(PolyVal(F[k], x))]),
-      jac |-> TLCEval([k \in 1..3 |-> TLCEval([i \in 1..NV |-> R2(PolyVal(DPoly(F[k], i), x))])]),
-      hess |-> TLCEval([i \in 1..NV |-> TLCEval([j \in 1..NV |-> R2(PolyVal(DPoly(DPoly(F[1], i), j), x))])])]
+      J == TLCEval([k \in 1..3 |-> TLCEval([i \in 1..NV |-> PolyVal(DPoly(F[k], i), x)])])
+      H == TLCEval([i \in 1..NV |-> TLCEval([j \in 1..NV |-> PolyVal(DPoly(DPoly(F[1], i), j), x)])])
+  IN [k |-> "poly", fam |-> "poly", n |-> NV, idx |-> c.idx, f |-> F, x |-> RV2(x),
+      x2 |-> RV2(PointOf((c.idx * 5 + 3) % PolyCount)),
+      pstates |-> PointStates, mstates |-> MatrixStates,
+      val |-> TLCEval([q \in 1..3 |-> R2(PolyVal(F[q], x))]),
+      jac |-> RM2(J), hess |-> RM2(H),
+      jaci |-> TLCEval([q \in 1..3 |-> TLCEval([i \in 1..NV |-> Trunc(J[q][i])])]),
+      hessi |-> TLCEval([i \in 1..NV |-> TLCEval([j \in 1..NV |-> Trunc(H[i][j])])]),
+      zj |-> NZeros(J), zh |-> NZeros(H)]
 
 HasRecord(c) == c.fam = "poly" \/ Det(MatOf(c)) # 0
 DRecord(c) == IF c.fam = "poly" THEN PolyRecord(c)
